@@ -676,6 +676,19 @@ MUTANTS = [
         }
     }""",
         """    ~graph_task() {}""")]),
+    dict(name='c03-new-object-without-storage-guard', prop='C03', clause='D13', edits=[('include/oneapi/tbb/detail/_small_object_pool.h',
+        """        struct storage_guard {
+            small_object_pool& pool;
+            void* storage;
+            ~storage_guard() {
+                if (storage) {
+                    r1::deallocate(pool, storage, sizeof(Type));
+                }
+            }
+        } guard{*m_pool, allocated_object};
+        auto constructed_object = new(allocated_object) Type(std::forward<Args>(args)...);
+        guard.storage = nullptr;""",
+        """        auto constructed_object = new(allocated_object) Type(std::forward<Args>(args)...);""")]),
     dict(name='c01-seed3-run-and-wait-handle-epilogue-on-exception-only', prop='C01', clause='D9', edits=[('include/oneapi/tbb/task_group.h',
         """            execute_and_wait(*acs::release(h), context(), m_wait_vertex.get_context(), context());
         }).on_completion([&] {""",
@@ -1548,6 +1561,27 @@ BENIGN = [
             held->release();
         }
     }""")]),
+    dict(name='c03-b-new-object-storage-returned-in-a-catch-all', prop='C03', edits=[('include/oneapi/tbb/detail/_small_object_pool.h',
+        """        } guard{*m_pool, allocated_object};
+        auto constructed_object = new(allocated_object) Type(std::forward<Args>(args)...);
+        guard.storage = nullptr;
+        return constructed_object;
+    }
+
+    template <typename Type>""",
+        """        } guard{*m_pool, nullptr};
+        (void)guard;
+        Type* constructed_object = nullptr;
+        try {
+            constructed_object = new(allocated_object) Type(std::forward<Args>(args)...);
+        } catch (...) {
+            r1::deallocate(*m_pool, allocated_object, sizeof(Type));
+            throw;
+        }
+        return constructed_object;
+    }
+
+    template <typename Type>""")]),
     dict(name='c01-b-group-wait-epilogue-in-a-named-lambda', prop='C01', edits=[('include/oneapi/tbb/task_group.h',
         """        try_call([&] {
             d1::wait(m_wait_vertex.get_context(), context());
